@@ -85,7 +85,8 @@ class RefEngine(c01.CallEngine):
     return ['d', [[['s', 'k%d' % i], self.gen_value(rng, regs, targets, depth - 1)] for i in range(rng.randint(1, 2))]]
 
   def gen(self, rng, tier):
-    sels = rng.sample(['m.f', 'n.g', 'k', 'pkg.h'], rng.randint(2, 4))
+    # (same short name in different modules: a scoped reference to one must never deliver the other)
+    sels = rng.sample(['m.f', 'n.g', 'k', 'pkg.h', 'n.f', 'pkg.g', 'pkg.sub.f'], rng.randint(2, 5))
     regs = []
     for sel in sels:
       n = rng.randint(1, 3)
